@@ -1271,8 +1271,21 @@ pub fn write_report(
     log: &dyn Log,
     groups: &[FileGroup<FileInfo>],
 ) -> io::Result<()> {
-    let now = Local::now();
+    write_report_with_timestamp(config, log, groups, Local::now())
+}
 
+/// Same as [`write_report`], but allows to set the timestamp recorded in the report header.
+///
+/// The timestamp should be taken *before* the files were scanned by [`group_files`].
+/// Deduplication commands refuse to process files modified after the report timestamp,
+/// so a timestamp taken after the scan could hide modifications made while the scan
+/// was in progress.
+pub fn write_report_with_timestamp(
+    config: &GroupConfig,
+    log: &dyn Log,
+    groups: &[FileGroup<FileInfo>],
+    now: DateTime<Local>,
+) -> io::Result<()> {
     let total_count = file_count(groups.iter());
     let total_size = total_size(groups.iter());
 
